@@ -354,7 +354,7 @@ def summarise(agg, tier):
     return {
         "thresholds": {"scale_evaluations": 100000 if q else 10000000, "pool_windows": 2000 if q else 3000, "pool_accumulators": 1000000 if q else 5000000,
                        "eltwise_triples": 50000 if q else 1000000, "equal_scale_triples": 5000 if q else 100000,
-                       "record_compilations": 80 if q else 1500, "scale_records_checked": 20000 if q else 400000,
+                       "record_compilations": 60 if q else 1200, "scale_records_checked": 10000 if q else 250000,
                        "register_ops_decoded": 3000 if q else 50000},
         "rule": "scale part: float32 mantissa sweep for 6 exponents (strided in quick), 181 exponents x sampled mantissas, boundaries, random doubles, each as "
                 "python float / np.float64 / np.float32; pool part: every window 1..1024 + sampled up to 65536, all reachable accumulators for small windows, ties beyond; "
